@@ -764,6 +764,9 @@ func c05Run(r *core.Run, idx int, rng *rand.Rand) {
 	mut.Apply(c)
 
 	e := env.Static(env.Opts{WantSigned: c.Want})
+	if idx%6 == 3 {
+		withUnaskedNames(e, r)
+	}
 	mustRegister(e.W, c.A, "appA")
 	mustRegister(e.W, c.B, "appB")
 	// half of the cases are "primed": the genuine signed message is sent (and accepted) first on the same
